@@ -14,6 +14,7 @@ import (
 	"math/rand"
 	"os"
 	"runtime"
+	"runtime/debug"
 	"sort"
 	"strconv"
 	"strings"
@@ -42,6 +43,33 @@ const (
 )
 
 var opNames = []string{"GetOrCreate", "GetOrCreate!failing", "Remove", "Clear", "Expire"}
+
+// in witness files the kind is written by name
+func (k opKind) MarshalJSON() ([]byte, error) {
+	if k < 0 || int(k) >= len(opNames) {
+		return nil, fmt.Errorf("bad op kind %d", int(k))
+	}
+	return json.Marshal(opNames[k])
+}
+
+func (k *opKind) UnmarshalJSON(b []byte) error {
+	var s string
+	if err := json.Unmarshal(b, &s); err != nil {
+		var n int
+		if err2 := json.Unmarshal(b, &n); err2 != nil || n < 0 || n >= len(opNames) {
+			return fmt.Errorf("bad op kind %s", b)
+		}
+		*k = opKind(n)
+		return nil
+	}
+	for i, n := range opNames {
+		if n == s {
+			*k = opKind(i)
+			return nil
+		}
+	}
+	return fmt.Errorf("unknown op kind %q", s)
+}
 
 type op struct {
 	K   opKind `json:"k"`
@@ -642,6 +670,9 @@ func (ss *session) run(k *kase, st *stats, visit func(uint64)) *vio {
 	s, m := ss.s, ss.m
 	e := &ss.e
 	pre := "lru/" + k.Variant + "/"
+	if k.NilCB {
+		pre = "lru/" + k.Variant + "-nilcb/"
+	}
 	ss.uses++
 
 	step := func(o op, idx int) *vio {
@@ -887,9 +918,13 @@ func configs(thorough bool) []config {
 			keys = 4
 		}
 		// alphabet sizes: cache 3k+1, ecache 6k+1, expirable 4k+1 (Expire is legal only on a resident fresh key)
+		// (the 19/25-letter ECache alphabet is taken one level less deep, except for capacity 2 in the thorough tier)
 		var dc, de, dx int
 		if c < 4 {
-			dc, de, dx = pick(5, 7), pick(4, 6), pick(5, 7)
+			dc, de, dx = pick(6, 7), pick(4, 5), pick(6, 7)
+			if c == 2 {
+				de = pick(4, 6)
+			}
 		} else {
 			dc, de, dx = pick(5, 6), pick(4, 5), pick(5, 6)
 		}
@@ -1012,6 +1047,8 @@ func enumerateAll(run *report.Run, col *collector, cs []config) {
 					}
 				})
 				run.Eval(n)
+				run.Add("enumerated_sequences", int64(n))
+				run.Add("enumerated_sequences_"+u.c.variant, int64(n))
 			}
 			col.merge(local, &st)
 		}()
@@ -1019,7 +1056,11 @@ func enumerateAll(run *report.Run, col *collector, cs []config) {
 	bounds := map[string]any{}
 	for _, c := range cs {
 		alpha := alphabet(c.variant, c.keys)
-		bounds[c.String()] = map[string]any{"depth_with_clear_ending": c.depthClear, "depth_with_drain_ending": c.depthDrain, "alphabet": len(alpha)}
+		b := map[string]any{"alphabet": len(alpha), "depth_with_drain_ending": c.depthDrain}
+		if c.depthClear > 0 {
+			b["depth_with_clear_ending"] = c.depthClear
+		}
+		bounds[c.String()] = b
 		m := model{cap: c.cap}
 		const pre = 2 // every depth bound is > 2
 		walk(c.variant, alpha, nil, &m, pre, func(ops []op, mm *model) {
@@ -1274,6 +1315,8 @@ func TestCheck(t *testing.T) {
 		replay(t, run, p)
 		return
 	}
+	// millions of short-lived caches on a live heap of a few MB: collect less often (speed only)
+	defer debug.SetGCPercent(debug.SetGCPercent(400))
 	col := &collector{seen: map[uint64]struct{}{}}
 	constructorChecks(run)
 	enumerateAll(run, col, configs(run.Thorough()))
